@@ -23,7 +23,7 @@ ASSUMPTIONS = ['a damaged file that still loads to exactly the stored value coun
                'which exception type reports a foreign-key file is not checked; InMemoryCache is used from one thread']
 BUDGET = {'quick': 45, 'thorough': 900}
 
-KEYS = ['caf\u00e9', 'cafe\u0301', 'k', '', 'a/b', '../x', 'line\nbreak', 'é', '😀' * 3, 'K', 'k ', '{"key": "k"}', 'x' * 5000, '\x00', 'k ']
+KEYS = ['caf\u00e9', 'cafe\u0301', 'k', '', 'a/b', '../x', 'line\nbreak', 'é', '😀' * 3, 'K', 'k ', '{"key": "k"}', 'x' * 5000, 'x' * 4999 + 'y', 'q' * 300 + 'A', 'q' * 300 + 'B', '\x00', 'k ']
 
 
 class Boom(Exception):
@@ -449,7 +449,15 @@ def run_case(case) -> CaseResult:
     for i in range(case['n']):
         kind = rng.choice(['json', 'json', 'json_nonone', 'pd', 'npy', 'memory'])
         ops = gen_ops(rng, kind)
-        run_sequence(kind, ops, res)
+        if rng.random() < 0.2:
+            # the application turns warnings into errors (python -W error / pytest filterwarnings=error): a damaged file is still recomputed, not raised
+            import warnings
+            with warnings.catch_warnings():
+                warnings.simplefilter('error')
+                run_sequence(kind, ops, res)
+            res.count('sequences_run_with_warnings_as_errors')
+        else:
+            run_sequence(kind, ops, res)
         if res.sample is None:
             res.sample = {'cache': kind, 'ops': [{k: (v if not isinstance(v, str) or len(v) < 40 else v[:40] + '…') for k, v in o.items()} for o in ops[:10]]}
         if res.violations:
